@@ -53,8 +53,8 @@ func repUser(rep int, name, pw string, quota bool) *appctlpb.User {
 	return u
 }
 
-func retiredExec(udp bool, rep int, rl reload, ctl *explore.Ctl) explore.Result {
-	v := &xfer.Verdict{Prop: "C05"}
+func retiredExec(prop string, udp bool, rep int, rl reload, keepOpen bool, ctl *explore.Ctl) explore.Result {
+	v := &xfer.Verdict{Prop: prop}
 	initial := []*appctlpb.User{repUser(rep, "alice", "pw1", false), repUser(rep, "bob", "pw2", false), repUser(rep, "carol", "pw3", false)}
 	cfg := world.Config{UDP: udp, MTU: 1400, Users: initial, ClientUser: &appctlpb.User{Name: proto.String("alice"), Password: proto.String("pw1")},
 		Seed: 11, Horizon: 400 * time.Second, RawMux: true, MaxSteps: 6_000_000}
@@ -70,6 +70,9 @@ func retiredExec(udp bool, rep int, rl reload, ctl *explore.Ctl) explore.Result 
 		conn *simnet.Conn
 	}
 	var sent []sentProbe
+	var bobConn net.Conn
+	var bobCli interface{ Stop() error }
+	bobPort := 0
 	ex := world.Run(cfg, ctl, func(w *world.World) {
 		w.Go("srv-accept", "server", func() {
 			for {
@@ -127,12 +130,25 @@ func retiredExec(udp bool, rep int, rl reload, ctl *explore.Ctl) explore.Result 
 			// apis/client speaks socks5 first; the raw server echoes the request, which the client
 			// takes as a malformed reply: only the handshake matters here
 			c, err := cli.DialContext(ctx, &net.TCPAddr{IP: net.IPv4(93, 184, 216, 34), Port: 80})
+			_ = err
+			if keepOpen {
+				// bob's session stays open across the reload; what he opens afterwards from the very
+				// same address and port is nevertheless a new connection
+				bobConn, bobCli = c, cli
+				return
+			}
 			if c != nil {
 				c.Close()
 			}
-			_ = err
 			cli.Stop()
 		})
+		if keepOpen {
+			for _, d := range w.Net.Dgrams {
+				if d.From.IP.Equal(warm) {
+					bobPort = d.From.Port
+				}
+			}
+		}
 		bobBefore = accepted >= 2
 		for li, l := range rl.lists {
 			m := map[string]*appctlpb.User{}
@@ -164,7 +180,11 @@ func retiredExec(udp bool, rep int, rl reload, ctl *explore.Ctl) explore.Result 
 			for k := 0; k < times; k++ {
 				if udp {
 					b := refwire.EncodeDatagram(s, c, o)
-					w.Net.Inject(&net.UDPAddr{IP: ip, Port: 4100 + int(sid%100)}, srv, b)
+					from := &net.UDPAddr{IP: ip, Port: 4100 + int(sid%100)}
+					if keepOpen && bobPort != 0 && ip.Equal(warm) {
+						from.Port = bobPort
+					}
+					w.Net.Inject(from, srv, b)
 					sent = append(sent, sentProbe{name: name, ip: ip})
 				} else {
 					b := (&refwire.StreamEncoder{C: c, Slot: refwire.RoundSlot(unix)}).Encode(s, o)
@@ -190,17 +210,27 @@ func retiredExec(udp bool, rep int, rl reload, ctl *explore.Ctl) explore.Result 
 			probe("retired credential bob/pw2 with bob's hint, three times, from the "+a.n, a.ip, "", false, 3)
 		}
 		vsched.Sleep(2 * time.Second)
-		if accepted == acceptedAtReload {
+		if accepted == acceptedAtReload && !keepOpen { // (with a live session two more minutes are millions of steps)
 			vsched.Sleep(128 * time.Second)
 		}
 		genuine(2)
 		if accepted > acceptedAtReload+1 {
-			v.Add("session-created", "after the reload %q completed, %d session(s) were opened with the retired credential bob/pw2 (users registered by %s)", rl.name, accepted-acceptedAtReload-1, []string{"password", "hashedPassword", "both fields"}[rep])
+			kind := "session-created"
+			if keepOpen {
+				kind = "session-created/while-an-older-session-of-the-user-is-open"
+			}
+			v.Add(kind, "after the reload %q completed, %d session(s) were opened with the retired credential bob/pw2 (users registered by %s; older session of bob still open: %v)", rl.name, accepted-acceptedAtReload-1, []string{"password", "hashedPassword", "both fields"}[rep], keepOpen)
 		}
 		for _, s := range sent {
 			if s.conn != nil {
 				s.conn.Close()
 			}
+		}
+		if bobConn != nil {
+			bobConn.Close()
+		}
+		if bobCli != nil {
+			w.OnNode("client", func() { bobCli.Stop() })
 		}
 		w.Shutdown()
 	})
@@ -240,7 +270,9 @@ func retiredExec(udp bool, rep int, rl reload, ctl *explore.Ctl) explore.Result 
 	return explore.Result{Outcome: out, Violations: v.Viol, Steps: ex.Steps}
 }
 
-func retiredUnits(tier string) []runner.Unit {
+// RetiredUnits: the retired-credential scenarios, reported under the given property (C05: a retired
+// credential is no credential; C07: after a completed reload no new connection is authenticated with it).
+func RetiredUnits(prop, tier string) []runner.Unit {
 	var us []runner.Unit
 	for _, udp := range []bool{false, true} {
 		udp := udp
@@ -251,8 +283,12 @@ func retiredUnits(tier string) []runner.Unit {
 				for _, rl := range reloads {
 					rep, rl := rep, rl
 					name := fmt.Sprintf("%s retired credential: reload=%s users-registered-by=%d", t, rl.name, rep)
-					u.Explore(explore.Bound{}, name, func(ctl *explore.Ctl) explore.Result { return retiredExec(udp, rep, rl, ctl) })
+					u.Explore(explore.Bound{}, name, func(ctl *explore.Ctl) explore.Result { return retiredExec(prop, udp, rep, rl, false, ctl) })
 					n += 10
+					if udp {
+						u.Explore(explore.Bound{}, name+" old-session-still-open", func(ctl *explore.Ctl) explore.Result { return retiredExec(prop, udp, rep, rl, true, ctl) })
+						n += 10
+					}
 				}
 			}
 			u.Eval(int64(n))
